@@ -262,6 +262,8 @@ impl Runnable for Cfg {
             Algo::Ftrl => "ftrl_seeded",
             Algo::FtrlDefaults => "ftrl_builder_defaults",
         });
+        obs.class_if(self.algo == Algo::Ftrl && crate::BOUNDARY_SEEDS.contains(&self.rng_seed), "boundary_rng_seed");
+        obs.class_if(self.algo == Algo::Ftrl && self.rng_seed == 0, "rng_seed_zero");
         // non-trivial: the estimator draws from an rng or orders labels
         obs.nontrivial_if(matches!(self.algo, Algo::Ftrl | Algo::FtrlDefaults | Algo::Logistic | Algo::MultiLogistic));
     }
@@ -285,10 +287,30 @@ pub fn strategy(tier: Tier) -> impl Strategy<Value = Cfg> {
         Just(Algo::FtrlDefaults),
     ];
     (
-        (algo, any::<u64>(), any::<u64>(), 20usize..=max_n, 1usize..=5, 3usize..=5),
+        (algo, any::<u64>(), crate::seed_strategy(), 20usize..=max_n, 1usize..=5, 3usize..=5),
         (any::<bool>(), 0u32..=200, 0u32..=10, 0u8..5, 1usize..=4),
     )
         .prop_map(|((algo, data_seed, rng_seed, n, p, classes), (intercept, penalty100, l1_10, power_sel, batches))| {
             Cfg { algo, data_seed, rng_seed, n, p, classes, intercept, penalty100: penalty100 + 1, l1_10, power_sel, batches }
         })
+}
+
+pub fn boundary_seed_cases() -> Vec<Cfg> {
+    crate::BOUNDARY_SEEDS
+        .iter()
+        .enumerate()
+        .map(|(i, &seed)| Cfg {
+            algo: Algo::Ftrl,
+            data_seed: 0xf7a1 + i as u64,
+            rng_seed: seed,
+            n: 60,
+            p: 4,
+            classes: 3,
+            intercept: true,
+            penalty100: 10,
+            l1_10: 5,
+            power_sel: 0,
+            batches: 3,
+        })
+        .collect()
 }
